@@ -126,6 +126,16 @@ class Ctx:
                 if d[0] == 'call' and d[1] == 'Result::ok' and len(d) == 3:
                     # `x.ok()` as the returned value = `if let Ok(v) = x { Some(v) } else { None }`: present the Some exit
                     d = ('agg', 'option::Option::Some', ('0', ('unwrap', d[2])))
+                if d[0] == 'call' and d[1] in ('bool::then_some', 'bool::then') and len(d) == 4:
+                    # `cond.then_some(v)` / `cond.then(|| v)` as the returned value: a Some exit under cond and a None exit under !cond
+                    from .core import VBlock
+                    from . import inline as _IN
+                    v = d[3] if d[1] == 'bool::then_some' else (_IN.closure_apply(self.facts, d[3], ()) if d[3][0] == 'closure' else None)
+                    if v is not None:
+                        op = payload['args'][0]
+                        out.append((Site(body, VBlock(bb, (op, True)), pos, 'ret', payload), ('agg', 'option::Option::Some', ('0', v))))
+                        out.append((Site(body, VBlock(bb, (op, False)), pos, 'ret', payload), ('agg', 'option::Option::None')))
+                        continue
                 out.append((Site(body, bb, pos, 'ret', payload), d))
             elif kind == 'mut':
                 out.append((Site(body, bb, pos, 'ret', payload.data), simplify(dag.local(0, bb, pos + 1))))
@@ -143,7 +153,14 @@ class Ctx:
 
     def guards(self, body, bb):
         self.focus(body)
-        return G.must_literals(body).get(bb, frozenset())
+        base = G.must_literals(body).get(int(bb), frozenset())
+        cond = getattr(bb, 'cond', None)
+        if cond is not None:
+            op, pol = cond
+            d = simplify(body.dag().operand(op, int(bb), len(body.blocks[int(bb)]['stmts'])))
+            if d[0] not in ('phi', 'loop'):
+                base = base | frozenset(G.norm_literal(d, pol))
+        return base
 
     def guarded(self, body, bb, atom_pat, pol, env=None):
         """is block bb dominated by literal (atom matching atom_pat, pol)?  -> env or None"""
@@ -173,7 +190,7 @@ class Ctx:
         """pred(has) must hold on every back-edge-free path entry->bb; has(atom_pat, pol) tests the path's literals.
         -> (ok, offending literal set)"""
         try:
-            sets = G.path_literal_sets(body, bb)
+            sets = G.path_literal_sets(body, int(bb), final=getattr(bb, 'cond', None))
         except OverflowError:
             return False, ['<too many paths: fail closed>']
         for lits in sets:
